@@ -3,6 +3,7 @@ package checks
 import (
 	"fmt"
 	"os"
+	"strings"
 	"testing"
 
 	"github.com/veraison/psatoken"
@@ -78,14 +79,52 @@ var c20Kind = registerKind("c20", func(in c20In) string {
 	if err == nil && verdict == "not-sign1" {
 		return fmt.Sprintf("accepted as evidence although %s  (%s)", why, in.Desc)
 	}
-	// a reused Evidence must behave the same
-	ev2 := &psatoken.Evidence{}
-	if good, e := goodEnvelopeOnce(); e == nil {
-		_ = ev2.UnmarshalCOSE(good)
+	// an Evidence with a past must behave the same as a fresh one: it held a
+	// good token, or claims, and possibly failed to decode something since
+	good, gerr := goodEnvelopeOnce()
+	if gerr != nil {
+		return "VERIF-INFRA: " + gerr.Error()
 	}
-	err2 := ev2.UnmarshalCOSE(in.Tok)
-	if (err2 == nil) != (err == nil) {
-		return fmt.Sprintf("UnmarshalCOSE on a reused Evidence disagrees with DecodeEvidenceFromCOSE: %v vs %v", err2, err)
+	for _, prior := range []string{"decoded", "decoded+garbage", "decoded+mac0", "decoded+truncated", "decoded+nonmap-payload", "setclaims", "setclaims+garbage", "signed"} {
+		ev2 := &psatoken.Evidence{}
+		parts := strings.Split(prior, "+")
+		switch parts[0] {
+		case "decoded":
+			_ = ev2.UnmarshalCOSE(good)
+		case "setclaims":
+			lit, _ := baseValid(P1, 1).BuildLiteral()
+			_ = ev2.SetClaims(lit)
+		case "signed":
+			lit, _ := baseValid(P2, 1).BuildLiteral()
+			_ = ev2.SetClaims(lit)
+			_, _ = ev2.ValidateAndSign(keyFor(icose.EdDSA, 2).Signer())
+		}
+		if len(parts) > 1 {
+			switch parts[1] {
+			case "garbage":
+				_ = ev2.UnmarshalCOSE([]byte{0x00})
+			case "mac0":
+				_ = ev2.UnmarshalCOSE(append([]byte{0xd1}, good[1:]...))
+			case "truncated":
+				_ = ev2.UnmarshalCOSE(good[:len(good)/2])
+			case "nonmap-payload":
+				kp := keyFor(icose.EdDSA, 0)
+				bad, _ := icose.SignedToken(kp.Alg, kp.Priv, []byte{0x80})
+				_ = ev2.UnmarshalCOSE(bad)
+			}
+		}
+		err2 := ev2.UnmarshalCOSE(in.Tok)
+		if (err2 == nil) != (err == nil) {
+			return fmt.Sprintf("UnmarshalCOSE on an Evidence with a past (%s) disagrees with DecodeEvidenceFromCOSE on a fresh one: %v vs %v  (%s)", prior, err2, err, in.Desc)
+		}
+		if err2 == nil && ev2.Claims == nil {
+			return fmt.Sprintf("UnmarshalCOSE on a used Evidence (%s) succeeded but holds no claims", prior)
+		}
+		if err2 == nil && err == nil {
+			if d := Observe(ev.Claims).Diff(Observe(ev2.Claims)); d != "" {
+				return fmt.Sprintf("UnmarshalCOSE on a used Evidence (%s) yields other claims than a fresh decode: %s", prior, d)
+			}
+		}
 	}
 	if err != nil {
 		if ev != nil {
@@ -129,7 +168,7 @@ func c20Replacements() []struct {
 }
 
 func TestC20_EnvelopeGrid(t *testing.T) {
-	st := NewStats("C20", "TestC20_EnvelopeGrid", "enumeration with the independent encoder around correctly signed material (7 algorithms in thorough, EdDSA+ES256 in quick; both profiles): tag in {none, 0..30, 61, 98, 18 nested twice} x array length 0..6; each of the four elements replaced by 20 other CBOR items and by indefinite-length / over-long-head forms; 2-element replacement pairs; 18 payload variants (raw map, double-wrapped, null, h'', h'f6', h'f7', array, int, text, tagged map, map+trailing, two maps, truncated map, ...) plus 19 tag numbers of every head width (incl. numbers whose last byte looks like a map head) x 8 tagged contents (null, undefined, array, int, bstr, text, map, tagged null); 0..3 trailing bytes; non-minimal tag/array heads; the TF-M Mac0 and Sign1 vectors and their tag-swapped variants. Oracle: DecodeEvidenceFromCOSE / UnmarshalCOSE success implies the independent classifier sees tag 18, 4-array, bstr, map, bstr holding exactly one map item, non-empty bstr, no trailing bytes. Non-trivial = still parses as CBOR and differs from a valid envelope in exactly one structural respect; distinct = grid cell")
+	st := NewStats("C20", "TestC20_EnvelopeGrid", "enumeration with the independent encoder around correctly signed material (7 algorithms in thorough, EdDSA+ES256 in quick; both profiles): tag in {none, 0..30, 61, 98, 18 nested twice} x array length 0..6; each of the four elements replaced by 20 other CBOR items and by indefinite-length / over-long-head forms; 2-element replacement pairs; 18 payload variants (raw map, double-wrapped, null, h'', h'f6', h'f7', array, int, text, tagged map, map+trailing, two maps, truncated map, ...) plus 19 tag numbers of every head width (incl. numbers whose last byte looks like a map head) x 8 tagged contents (null, undefined, array, int, bstr, text, map, tagged null); 0..3 trailing bytes; non-minimal tag/array heads; the TF-M Mac0 and Sign1 vectors and their tag-swapped variants. Every envelope is also given to Evidence objects with a past (decoded a good token / had claims attached / signed, possibly followed by a failed decode of garbage, a Mac0, a truncated token, a non-map payload), which must agree with a fresh decode. Oracle: DecodeEvidenceFromCOSE / UnmarshalCOSE success implies the independent classifier sees tag 18, 4-array, bstr, map, bstr holding exactly one map item, non-empty bstr, no trailing bytes. Non-trivial = still parses as CBOR and differs from a valid envelope in exactly one structural respect; distinct = grid cell")
 	st.Exhaustive = true
 	st.Require = []string{"accepted", "rejected", "tag", "arity", "element", "payload", "trailing", "vector"}
 	defer st.Flush(t)
